@@ -5,7 +5,7 @@ from dst.world.program import named_params
 
 class Call:
     __slots__ = ("cid", "fid", "params", "hidx", "yields", "rebinds", "awaits", "end", "end_idx", "end_key",
-                 "ret", "exc", "at_yield", "resumptions", "states")
+                 "ret", "exc", "at_yield", "resumptions", "states", "state_at", "params_obj", "await_idx", "mu_times")
 
     def __init__(self, cid, fid, params, hidx):
         self.cid, self.fid, self.params, self.hidx = cid, fid, params, hidx
@@ -18,9 +18,54 @@ class Call:
         self.ret = None
         self.exc = None
         self.at_yield = False  # ended by an exception raised at a yield / await (throw, close, drop)
+        self.state_at = _identity_state
+        self.params_obj = None
+        self.await_idx = []   # journal indices of the A records (await suspensions)
+        self.mu_times = _no_times
+
+
+def _identity_state(obj, idx):
+    return obj
+
+
+def _no_times(obj):
+    return ()
 
 
 def parse_journal(J):
+    """Calls of the run with the values as they were at the moment that matters: parameters as bound at entry, the return
+    value at the return, yielded values at their yield.  Containers that the program mutated in place later are replaced by
+    the journaled copy of their earlier state (MU records)."""
+    calls, order = _parse_journal(J)
+    mus = {}
+    for idx, rec in enumerate(J):
+        if rec[0] == "MU":
+            mus.setdefault(id(rec[2]), []).append((idx, rec[3]))
+    if not mus:
+        return calls, order
+
+    def state_at(obj, idx):
+        """obj as it was right after journal position idx (the state before the first later mutation)."""
+        for i, snap in mus.get(id(obj), ()):
+            if i > idx:
+                return snap
+        return obj
+
+    def mu_times(obj):
+        return [i for i, _ in mus.get(id(obj), ())]
+
+    for c in calls.values():
+        c.state_at = state_at
+        c.mu_times = mu_times
+        c.params_obj = dict(c.params)
+        c.params = {n: state_at(v, c.cid) for n, v in c.params.items()}
+        c.yields = [(i, state_at(v, i)) for i, v in c.yields]
+        if c.end == "R":
+            c.ret = state_at(c.ret, c.end_idx)
+    return calls, order
+
+
+def _parse_journal(J):
     calls = {}
     by_handle = {}
     order = []  # completed calls in completion order
@@ -37,6 +82,7 @@ def parse_journal(J):
             calls[rec[1]].rebinds.append((idx, rec[2], rec[3]))
         elif t == "A":
             calls[rec[1]].awaits += 1
+            calls[rec[1]].await_idx.append(idx)
         elif t == "R":
             c = calls[rec[1]]
             c.end, c.end_idx, c.end_key, c.ret = "R", idx, idx, rec[2]
@@ -266,10 +312,32 @@ def state_at_resumption(c, f, j):
     if j <= 0:
         return vals
     yidx = c.yields[j - 1][0] if j - 1 < len(c.yields) else None
+    if yidx is None:
+        return vals
+    objs = dict(c.params_obj if c.params_obj is not None else c.params)
     for idx, pn, v in c.rebinds:
-        if yidx is not None and idx < yidx:
-            vals[pn] = v
-    return vals
+        if idx < yidx:
+            objs[pn] = v
+    # in-place mutations up to that moment count: the values are taken as they were right after the j-th yield
+    return {n: c.state_at(v, yidx) for n, v in objs.items()}
+
+
+def states_while_suspended(c, lo, hi, rebind_prefix=None):
+    """Parameter values as a trace started at a resumption would see them: the frame was suspended at journal position lo
+    (a Y or A record) and resumed somewhere before hi.  Re-bindings up to lo count (all of them, or the first rebind_prefix);
+    every in-place mutation of a bound container inside (lo, hi) gives one more candidate moment."""
+    objs = dict(c.params_obj if c.params_obj is not None else c.params)
+    rb = c.rebinds if rebind_prefix is None else c.rebinds[:rebind_prefix]
+    for idx, pn, v in rb:
+        if rebind_prefix is not None or idx < lo:
+            objs[pn] = v
+    times = {lo}
+    for v in objs.values():
+        for t in c.mu_times(v):
+            if lo < t < (hi if hi is not None else t + 1):
+                times.add(t)
+    for t in sorted(times):
+        yield {n: c.state_at(v, t) for n, v in objs.items()}
 
 
 def faithful(prefix, lp, c, f, tr, gt, sampled):
@@ -312,10 +380,14 @@ def faithful(prefix, lp, c, f, tr, gt, sampled):
     if sampled and f["body"] == "gen" and c.yields:
         # F5: trace started at a later resumption j >= 1 (after the j-th yield)
         for j in range(1, len(c.yields) + 1):
-            vals = state_at_resumption(c, f, j)
-            a_j = {n: T.tnorm(gt(vals[n])) for n in names}
             y_j = T.union_norm([T.tnorm(gt(v)) for _, v in c.yields[j:]])
-            if got_args == a_j and got_y == y_j and got_ret == exp_ret:
+            hit = False
+            for vals in states_while_suspended(c, c.yields[j - 1][0], c.yields[j][0] if j < len(c.yields) else c.end_idx):
+                a_j = {n: T.tnorm(gt(vals[n])) for n in names}
+                if got_args == a_j and got_y == y_j and got_ret == exp_ret:
+                    hit = True
+                    break
+            if hit:
                 for kname, _ in problems:
                     cause_of[kname] = "sampled_midlife_start"
                 break
@@ -323,14 +395,25 @@ def faithful(prefix, lp, c, f, tr, gt, sampled):
         # F5 for coroutines: trace started at a later resumption; arguments as after some prefix of
         # the re-bindings, yield type at most the suspension token (F2)
         tok_only = True
+        hit_p = None
         for p in range(0, len(c.rebinds) + 1):
             vals = dict(c.params)
             for _, pn, v in c.rebinds[:p]:
                 vals[pn] = v
-            a_p = {n: T.tnorm(gt(vals[n])) for n in names}
-            if got_args == a_p and tok_only and got_ret == exp_ret:
+            cands = [vals]
+            # a shared container may have been mutated (by other code) while the coroutine was suspended: the values a trace
+            # started at a later resumption sees are those of that moment
+            for k_a, a_idx in enumerate(c.await_idx):
+                hi = c.await_idx[k_a + 1] if k_a + 1 < len(c.await_idx) else (c.end_idx if c.end_idx is not None else a_idx)
+                cands.extend(states_while_suspended(c, a_idx, hi, rebind_prefix=p))
+            for vals in cands:
+                a_p = {n: T.tnorm(gt(vals[n])) for n in names}
+                if got_args == a_p and tok_only and got_ret == exp_ret:
+                    hit_p = p
+                    break
+            if hit_p is not None:
                 for kname, _ in problems:
-                    if kname != "yield-cover" or p > 0:
+                    if kname != "yield-cover" or p > 0 or c.await_idx:
                         cause_of.setdefault(kname, "sampled_midlife_start")
                 break
     for kname, msg in problems:
